@@ -75,6 +75,11 @@ CHECKS = {
             "DESIGN.md 6/C09 and 4.2",
             "BasicCreator runs in a child under a shim that lets exactly B bytes reach the files of the destination directory, then kills the process or fails every write with ENOSPC; B ranges over every byte offset of the write stream for tiny containers in the three packagings (stride + every write boundary for larger ones), with a fresh destination and with a previous complete container of other content in place. Afterwards the entry point must be absent (fresh only), byte-identical to the previous file, or a container that opens, verifies and equals the model of the new content; with B >= total creation must succeed.",
             "Crash = process termination or write error (page cache survives; no power-loss claim). rename itself is not failed (invisible to the shim). The shim self-checks on a fault-free run (bytes seen >= final sizes, result equals the model) or the run is inconclusive."),
+    "C08": ("E4-schedules", "exploration",
+            "property-based testing (proptest) over schedules: seeded perturbation plans inside Progress callbacks x CPU-affinity-controlled worker counts; metamorphic + model oracle",
+            "DESIGN.md 6/C08",
+            "Generated insertion sequences (3..60 clusters mixing raw and compressed, queues shorter and longer than the back-pressure limit) are created 4-6 times each under different perturbation plans (delays injected on the main, worker and writer threads through the public Progress trait) and visible CPU counts 1..15 (sched_setaffinity => 1..14 workers). Every run must terminate, return the same addresses, resolve every address to its own bytes in a fresh reader, verify, and lay clusters out inside the file without overlap (independent decoder). A case counts only when at least two of its runs wrote clusters in different file orders.",
+            "Completion orders are sampled through delays, not enumerated; evidence reports the number of distinct orders per case. No hook needed (public Progress trait)."),
 }
 
 NOT_YET = {
